@@ -67,7 +67,8 @@ META = {
                     "bus reset, decided from the driven line state only; no traffic during it",
                     "after a bus reset the host starts with a new SETUP before it issues an EP0 IN token",
                     "a high-speed capable device (V2, full_speed_only = 0) starts the high-speed detection handshake on a reset; "
-                    "the handshake is not simulated: the run ends with the first bus reset (registers are observed on the spy pins)",
+                    "the handshake is not simulated: the run ends with the first reported reset or SE0 longer than GLITCH_MAX = 100 cycles "
+                    "(the registers are observed on the spy pins; no post-reset traffic is needed)",
                     "suspend = the line stays at J for > 180000 cycles (3 ms of the sequencer's constants); resume is time-"
                     "compressed (K for 50..2000 cycles, a 2-low-speed-bit SE0, then J); the host sends nothing to a suspended device"],
     "rule": "6-30 host operations: SET_ADDRESS/SET_CONFIGURATION setup stages, status IN tokens with/without host ACK, EP1 IN "
@@ -78,7 +79,7 @@ META = {
             "SET request, > 3 ms idle, then a long SE0 reset | a marginal SE0 | a resume, optionally after a sub-threshold SE0 "
             "glitch; then (unless the device went into high-speed detection) more episodes, resets and a final probe",
 }
-TIERS = {"quick": {"runs": 2000, "wall": 90, "shrink_budget": 64}, "thorough": {"runs": 36000, "wall": 900, "shrink_budget": 64}}
+TIERS = {"quick": {"runs": 2000, "wall": 90, "shrink_budget": 48}, "thorough": {"runs": 36000, "wall": 900, "shrink_budget": 48}}
 
 DEV_CFG = {v: {"variant": v, "ep0_mps": 64, "endpoints": [{"kind": "stream_in", "ep": 1, "mps": 8}]} for v in ("V1", "V2")}
 SLACK = 8
@@ -89,6 +90,10 @@ GLITCH_MAX = 100              # SE0 of <= 1.67 us: far below the 2.5 us minimum 
 LINE_K = 0b10                 # full-speed K (resume signalling)
 SUSPEND_STRIDE = {"quick": 32, "thorough": 300}     # one suspend run per this many indices ...
 SUSPEND_COUNT = {"quick": 8, "thorough": 1 << 30}   # ... for the first so many strides
+# (device class, what ends the suspend); the first 8 (= the quick tier) hold every class with a long reset, and a resume
+SUSPEND_GRID = [("V2hs", "long_reset"), ("V1", "long_reset"), ("V2hs", "resume"), ("V2fs", "long_reset"),
+                ("V2hs", "long_reset"), ("V1", "other"), ("V2hs", "long_reset"), ("V2fs", "other"),
+                ("V2hs", "other"), ("V1", "long_reset"), ("V2hs", "long_reset"), ("V2fs", "resume")]
 SUSPEND_PHASE = 2             # position of the suspend run inside its stride (index 2: covered by selftest-determinism)
 
 
@@ -221,7 +226,7 @@ def gen(rng, tier, index):
 def _gen_suspend(rng, tier, cfg, slot):
     """ One of the few expensive runs in which the bus idles > 3 ms.  Stratified over
         (timing variant / speed capability) x (what ends the suspend) so that every tier run covers the grid. """
-    klass = ("V2hs", "V1", "V2hs", "V2fs")[slot % 4]
+    klass, end = SUSPEND_GRID[slot % len(SUSPEND_GRID)]
     cfg["variant"] = "V1" if klass == "V1" else "V2"
     cfg["fs_only"] = 0 if klass == "V2hs" else 1
     hs_capable = klass == "V2hs"
@@ -234,11 +239,7 @@ def _gen_suspend(rng, tier, cfg, slot):
         # a glitch far below every detection threshold; the bus returns to idle, the device stays suspended
         ops.append({"op": "reset", "kind": "se0", "n": rng.randint(2, GLITCH_MAX)})
         ops.append({"op": "idle", "n": rng.randint(1, 300)})
-    if slot % 3 != 2:
-        end = "long_reset"
-    elif slot % 6 == 2:
-        end = "resume"
-    else:
+    if end == "other":
         end = rng.choice(["resume", "marginal_reset", "marginal_reset"])
     if end == "long_reset":
         ops.append({"op": "reset", "kind": "se0", "n": rng.randint(LONG_SE0 + 100, LONG_SE0 + 1500)})
@@ -328,18 +329,19 @@ class _Monitor:
             self.input_resets += 1
             note = self.se0_note
             reported = self.reset_edges > note.get("edges_before", 0)
-            for reg, pin in self.PINS:
-                if o[pin] != 0:
-                    self.viol.add("C08.reset_clears", t,
-                                  f"[{self.variant}] {reg} is still {o[pin]} although the host has held SE0 for {LONG_SE0} cycles "
-                                  f"(a bus reset; SE0 began at cycle {self.se0_since}, device suspended at that time: "
-                                  f"{note.get('suspended')}, high-speed capable: {note.get('hs_capable')}, reset_detected "
-                                  f"{'was' if reported else 'was NOT'} pulsed during it); expected 0",
-                                  **self.shape(reg, o[pin]), kind="not_cleared_by_long_se0",
-                                  suspended=bool(note.get("suspended")), hs_capable=bool(note.get("hs_capable")),
-                                  reset_reported=bool(reported))
-                    self.dead = True
-                    return True
+            left = {reg: o[pin] for reg, pin in self.PINS if o[pin] != 0}
+            if left:
+                # (shape: the circumstances of the reset, not the register / request history -- one class per cause)
+                self.viol.add("C08.reset_clears", t,
+                              f"[{self.variant}] {left} not cleared although the host has held SE0 for {LONG_SE0} cycles "
+                              f"(a bus reset; SE0 began at cycle {self.se0_since}, device suspended at that time: "
+                              f"{note.get('suspended')}, high-speed capable: {note.get('hs_capable')}, reset_detected "
+                              f"{'was' if reported else 'was NOT'} pulsed during it); expected address 0, config 0",
+                              kind="not_cleared_by_long_se0", suspended=bool(note.get("suspended")),
+                              hs_capable=bool(note.get("hs_capable")), reset_reported=bool(reported))
+                self.dead = True
+                return True
+            for reg, _ in self.PINS:
                 self.exp[reg] = 0
                 self.win.pop(reg, None)
         if o["reset_detected"]:
